@@ -24,6 +24,16 @@ import (
 
 var Engines = []string{"btree", "ldbmem", "ldbdisk"}
 
+// DiskTableBudget bounds how many on-disk tables one check process may open: the emulator never closes the leveldb
+// handle of a deleted (or re-created) table, so every such table costs a handful of file descriptors until the
+// process exits. DiskEngineAvailable reports whether another program may still use the disk engine.
+var diskTablesOpened int64
+
+const DiskTableBudget = 2500
+
+func NoteDiskTables(n int) { atomic.AddInt64(&diskTablesOpened, int64(n)) }
+func DiskEngineAvailable() bool { return atomic.LoadInt64(&diskTablesOpened) < DiskTableBudget }
+
 // RPCTimeout is the generous watchdog on every request; hitting it is reported as a hang.
 var RPCTimeout = 120 * time.Second
 
